@@ -8,15 +8,28 @@ package mqtt
 //@ guard RetryClient.cli by mu
 //@ guard RetryClient.chConnectErr by mu
 //@ guard RetryClient.chConnSwitch by mu
+//@ guard RetryClient.mu lock
 //@ guard RetryClient.handler by mu
+//@ guard RetryClient.chTask by mu readrole task stable
 //@ guard RetryClient.stopped by mu
 //@ guard RetryClient.taskQueue by mu
+//@ guard RetryClient.muStats lock
 //@ guard RetryClient.stats by muStats
+//@ guard RetryClient.ResponseTimeout config
+//@ guard RetryClient.DirectlyPublishQoS0 config
+//@ guard RetryClient.OnError config
+//@ guard firstError.mu lock
 //@ guard firstError.err by mu
-// confined to the task goroutine (only functions reachable from the task loop touch them)
+// confined to the task goroutine (one per RetryClient): only functions declared "role task" touch them
 //@ guard RetryClient.retryQueue role task
 //@ guard RetryClient.subEstablished role task
 //@ guard RetryClient.newRetryByError role task
+// set by NewReconnectClient, never written afterwards
+//@ guard reconnectClient.RetryClient config
+//@ guard reconnectClient.done config
+//@ guard reconnectClient.options config
+//@ guard reconnectClient.dialer config
+//@ guard reconnectClient.disconnected config
 
 // the per-client connect-result channel is closed by RetryClient.Connect only
 //@ closer RetryClient.chConnectErr (*RetryClient).Connect
@@ -50,6 +63,7 @@ package mqtt
 //@   ensures[C05] invalid_not_queued: guardVal(&c.cli) != nil && message.QoS > QoS2 ==> result != nil && evCount("(*RetryClient).pushTask") == 0
 
 //@ func (*RetryClient).Publish$1
+//@   role task
 //@   mode int
 //@   props C01 C03
 //@   requires c != nil && cli != nil && ctx != nil && message != nil && cli.Transport != nil
@@ -139,6 +153,7 @@ package mqtt
 //@        (evCount("callback:func(error)") == 1 ==> evArg[error]("callback:func(error)", 0, 0) == err)
 
 //@ func (*RetryClient).publish$1
+//@   role task
 //@   mode int
 //@   props C01 C03 C12 C18
 //@   requires c != nil && cli != nil && ctx != nil && carriable(message) && cli.Transport != nil
@@ -162,6 +177,7 @@ package mqtt
 //@   ensures[C03] one_request: evCount("(*BaseClient).Subscribe") == 0 && evCount("(*BaseClient).Unsubscribe") == 0 && evCount("go") == 0
 
 //@ func (*RetryClient).publish$2
+//@   role task
 //@   mode int
 //@   props C01 C03 C12
 //@   requires cli != nil && ctx != nil && cli.Transport != nil && publish != nil
@@ -173,6 +189,7 @@ package mqtt
 //@        evArg[context.Context]("(*RetryClient).publish$1", 0, 0) == ctx && result == nil
 
 //@ func (*RetryClient).publish
+//@   role task
 //@   mode int
 //@   props C01 C03 C05 C12
 //@   requires c != nil && cli != nil && ctx != nil && message != nil && cli.Transport != nil
@@ -199,6 +216,7 @@ package mqtt
 //@   ensures[C03] in_order: evCount("(*RetryClient).publish$1") == 1 ==> qlen == 0
 
 //@ func (*RetryClient).Subscribe$1
+//@   role task
 //@   mode int
 //@   props C01 C03
 //@   requires c != nil && cli != nil && ctx != nil && cli.Transport != nil && subscribable(subs) && !sameArray(c.subEstablished, subs)
@@ -208,6 +226,7 @@ package mqtt
 //@        evArg[bool]("(*RetryClient).subscribe", 0, 2) == false
 
 //@ func (*RetryClient).Unsubscribe$1
+//@   role task
 //@   mode int
 //@   props C01 C03
 //@   requires c != nil && cli != nil && ctx != nil && cli.Transport != nil && unsubscribable(topics)
@@ -216,6 +235,7 @@ package mqtt
 //@        sameSlice(evArg[[]string]("(*RetryClient).unsubscribe", 0, 3), topics) && evArg[*RetryClient]("(*RetryClient).unsubscribe", 0, 0) == c
 
 //@ func (*RetryClient).subscribe$1
+//@   role task
 //@   mode int
 //@   props C01 C03 C08 C18
 //@   requires c != nil && cli != nil && ctx != nil && cli.Transport != nil && subscribable(subs) && !sameArray(c.subEstablished, subs)
@@ -240,6 +260,7 @@ package mqtt
 //@   ensures[C03] one_request: evCount("(*BaseClient).Publish") == 0 && evCount("(*BaseClient).Unsubscribe") == 0 && evCount("go") == 0
 
 //@ func (*RetryClient).subscribe
+//@   role task
 //@   mode int
 //@   props C01 C03 C08
 //@   requires c != nil && cli != nil && ctx != nil && cli.Transport != nil && subscribable(subs) && !sameArray(c.subEstablished, subs)
@@ -256,6 +277,7 @@ package mqtt
 //@        *closureVar[*bool](c.retryQueue[len(c.retryQueue)-1], "(*RetryClient).subscribe$1", 2) == retry
 
 //@ func (*RetryClient).unsubscribe$1
+//@   role task
 //@   mode int
 //@   props C01 C03 C08 C18
 //@   requires c != nil && cli != nil && ctx != nil && cli.Transport != nil && unsubscribable(topics)
@@ -280,6 +302,7 @@ package mqtt
 //@   ensures[C03] one_request: evCount("(*BaseClient).Publish") == 0 && evCount("(*BaseClient).Subscribe") == 0 && evCount("go") == 0
 
 //@ func (*RetryClient).unsubscribe
+//@   role task
 //@   mode int
 //@   props C01 C03 C08
 //@   requires c != nil && cli != nil && ctx != nil && cli.Transport != nil && unsubscribable(topics)
@@ -324,6 +347,7 @@ package mqtt
 //@   ensures sameArray(c.subEstablished, e0) || fresh(c.subEstablished) || c.subEstablished == nil
 
 //@ func (*RetryClient).Retry$1
+//@   role task
 //@   mode int
 //@   props C01 C02 C03 C12 C18
 //@   requires c != nil && cli != nil && ctx != nil
@@ -353,12 +377,14 @@ package mqtt
 
 // every task pushed by the client's own methods
 //@ fntype func(ctx context.Context, cli *BaseClient)
+//@   role task
 //@   shape ctx context.Context, cli *BaseClient, c *RetryClient -> 
 //@   assigns c.retryQueue; c.newRetryByError; c.subEstablished; (c.subEstablished)[*]; any Message.ID; any Message.Dup; any Message.QoS; any BaseClient.idLast; any BaseClient.connState; any BaseClient.err
 //@   let e0 []Subscription = c.subEstablished
 //@   ensures sameArray(c.subEstablished, e0) || fresh(c.subEstablished) || c.subEstablished == nil
 
 //@ func (*RetryClient).SetClient$1
+//@   role task
 //@   mode int
 //@   props C01 C03 C18
 //@   requires c != nil
@@ -391,6 +417,7 @@ package mqtt
 //@ end
 
 //@ func (*RetryClient).Resubscribe$1
+//@   role task
 //@   mode int
 //@   props C01 C03 C08
 //@   requires c != nil && cli != nil && ctx != nil && cli.Transport != nil
@@ -437,6 +464,7 @@ package mqtt
 //@   ensures[C01] one_loop: evCount("go:(*RetryClient).SetClient$1") <= 1
 
 //@ func (*RetryClient).Disconnect$1
+//@   role task
 //@   mode int
 //@   props C18
 //@   requires c != nil && cli != nil && ctx != nil && cli.Transport != nil
